@@ -1,20 +1,825 @@
-use sciparse::{
-    address::addr::ScionAddr,
-    core::{encode::WireEncode, model::Model, view::View},
-    dataplane_path::model::DpPath,
-    identifier::{asn::Asn, isd::Isd, isd_asn::IsdAsn},
-    packet::model::ScionScmpPacket,
-    payload::scmp::model::{ScmpEchoRequest, ScmpMessage},
+//! C14 harness: SCMP quoting / checksum / reply decision / socket receive path on the REAL code.
+//!
+//!   c14_scmp quote  <cells.ndjson> <out.ndjson>    spec->impl: error packets through every constructor
+//!   c14_scmp reply  <cells.ndjson> <out.ndjson>    spec->impl: every message descriptor into the handlers
+//!   c14_scmp router <cells.ndjson> <out.ndjson>    spec->impl: offending packets at a simulated router
+//!   c14_scmp socket <behaviours.ndjson> <out.ndjson> spec->impl: arrival sequences on the real socket
+//!   c14_scmp record <events.ndjson> <results.json> impl->spec: seeded random executions as a trace
+//!
+//! All facts reported about packets (lengths, quote, checksum, reversal) are computed with the
+//! independent reference code in vh_scmp::wire, never with the code under test.
+#![allow(unused_imports, dead_code)]
+use std::{
+    net::{IpAddr, Ipv4Addr, Ipv6Addr, SocketAddr},
+    sync::{Arc, Mutex},
 };
-use vh_scmp::wire;
+
+use pocketscion::network::{
+    local::{
+        external_as_registry::ExternalAsRegistry, receiver_registry::NetworkReceiverRegistry, receivers::Receiver,
+        simulator::LocalNetworkSimulation,
+    },
+    scion::{
+        routing::{LocalAsRoutingAction, ScionNetworkTime},
+        topology::ScionRouter,
+        util::test_topology_ext::TestPathContextTopologyExt,
+    },
+    simulator::NetworkSimulator,
+};
+use scion_stack::stack::{
+    scmp_handler::{DefaultEchoHandler, ScmpErrorReceiver, ScmpHandler},
+    socket::verif as sockhook,
+};
+use sciparse::{
+    address::{addr::ScionAddr, host_addr::ScionHostAddr, ip_socket_addr::ScionSocketIpAddr},
+    core::{model::Model, view::View},
+    dataplane_path::{
+        model::DpPath,
+        view::{ScionDpPathViewExt, ScionDpPathViewRef},
+    },
+    identifier::{asn::Asn, isd::Isd, isd_asn::IsdAsn},
+    packet::{
+        model::{ScionRawPacket, ScionScmpPacket},
+        view::ScionRawPacketView,
+    },
+    payload::{
+        ProtocolNumber,
+        scmp::{
+            model::{
+                ScmpDestinationUnreachable, ScmpErrorMessage, ScmpExternalInterfaceDown, ScmpInternalConnectivityDown,
+                ScmpMessage, ScmpPacketTooBig, ScmpParameterProblem,
+            },
+            types::{ScmpDestinationUnreachableCode, ScmpParameterProblemCode},
+        },
+    },
+    util::test_builder::{TestPathBuilder, TestPathContext},
+};
+use serde_json::{Value, json};
+use vh_core::{NdjsonWriter, Rng, catch, quiet_panics, read_ndjson, seed_from_env, tier_is_thorough};
+use vh_scmp::wire::{self, Hdr};
+
+// =================================================================================================
+// builders shared by all subcommands
+// =================================================================================================
+
+fn ia(isd: u16, asn: u64) -> IsdAsn {
+    IsdAsn::new(Isd(isd), Asn(asn))
+}
+fn ia_bytes(isd: u16, asn: u64) -> [u8; 8] {
+    let v = ((isd as u64) << 48) | asn;
+    v.to_be_bytes()
+}
+fn v4(a: u8, b: u8, c: u8, d: u8) -> ScionHostAddr {
+    ScionHostAddr::V4(Ipv4Addr::new(a, b, c, d))
+}
+fn v6(x: u16) -> ScionHostAddr {
+    ScionHostAddr::V6(Ipv6Addr::new(0x2001, 0xdb8, 0, 0, 0, 0, 0, x))
+}
+
+/// raw bytes of a standard path with the given segment lengths and pointers; hop fields are random
+fn std_path_bytes(seglens: [usize; 3], ci: usize, ch: usize, rng: &mut Rng) -> Vec<u8> {
+    let nseg = seglens.iter().filter(|&&x| x > 0).count();
+    let nh: usize = seglens.iter().sum();
+    let meta: u32 = ((ci as u32) << 30) | ((ch as u32) << 24) | ((seglens[0] as u32) << 12) | ((seglens[1] as u32) << 6) | seglens[2] as u32;
+    let mut p = meta.to_be_bytes().to_vec();
+    for _ in 0..nseg {
+        let mut inf = rng.bytes(8);
+        inf[0] &= 0x01; // only ConsDir (peering flag would change router semantics, irrelevant here)
+        inf[1] = 0;
+        p.extend_from_slice(&inf);
+    }
+    for _ in 0..nh {
+        let mut h = rng.bytes(12);
+        h[0] = 0; // no router alerts
+        p.extend_from_slice(&h);
+    }
+    p
+}
+
+/// segment lengths of a standard path of exactly `plen` bytes, if one exists
+fn std_seglens_for(plen: usize, prefer_segs: usize) -> Option<[usize; 3]> {
+    let mut order = vec![prefer_segs];
+    for s in 1..=3 {
+        if s != prefer_segs {
+            order.push(s);
+        }
+    }
+    for s in order {
+        if plen < 4 + 8 * s + 12 * s {
+            continue;
+        }
+        let rest = plen - 4 - 8 * s;
+        if rest % 12 != 0 {
+            continue;
+        }
+        let h = rest / 12;
+        if h < s || h > 63 * s {
+            continue;
+        }
+        // distribute h hops over s segments, each 1..=63
+        let mut sl = [0usize; 3];
+        let mut left = h;
+        for i in 0..s {
+            let remaining_segs = s - i - 1;
+            let take = (left - remaining_segs).min(63);
+            sl[i] = take;
+            left -= take;
+        }
+        if left == 0 {
+            return Some(sl);
+        }
+    }
+    None
+}
+
+/// the SDK model of a path given as wire bytes (goes through the SDK's own parser on a carrier packet)
+fn dp_path_from_bytes(ptype: u8, path: &[u8]) -> Option<DpPath> {
+    let b = wire::build_packet(17, ptype, (0, 0), (0, 0), ia_bytes(1, 1), ia_bytes(1, 2), &[10, 0, 0, 1], &[10, 0, 0, 2], path, &[]);
+    let (v, _) = ScionRawPacketView::try_from_slice(&b).ok()?;
+    Some(v.header().path().to_model())
+}
+
+#[derive(Clone)]
+struct Shape {
+    name: String,
+    src: ScionAddr,
+    dst: ScionAddr,
+    path: DpPath,
+    ptype: u8,
+    path_bytes: Vec<u8>,
+}
+
+fn host_len(h: &ScionHostAddr) -> usize {
+    match h {
+        ScionHostAddr::V4(_) => 4,
+        ScionHostAddr::V6(_) => 16,
+        ScionHostAddr::Svc(_) => 4,
+    }
+}
+
+/// header shapes (addresses + path) whose encoded SCION header is exactly `hdr` bytes
+fn shapes_for_hdr(hdr: usize, rng: &mut Rng) -> Vec<Shape> {
+    let mut out = vec![];
+    let combos: [(&str, ScionHostAddr, ScionHostAddr); 3] =
+        [("v4v4", v4(192, 0, 2, 1), v4(198, 51, 100, 7)), ("v4v6", v4(192, 0, 2, 1), v6(7)), ("v6v6", v6(1), v6(7))];
+    for (cn, s, d) in combos.iter() {
+        let a = 16 + host_len(s) + host_len(d);
+        if hdr < 12 + a {
+            continue;
+        }
+        let plen = hdr - 12 - a;
+        let src = ScionAddr::new(ia(1, 0xff00_0000_0110), *s);
+        let dst = ScionAddr::new(ia(2, 0xff00_0000_0220), *d);
+        if plen == 0 {
+            out.push(Shape { name: format!("{cn}/empty"), src, dst, path: DpPath::Empty, ptype: 0, path_bytes: vec![] });
+            continue;
+        }
+        let prefer = 1 + rng.below(3) as usize;
+        if let Some(sl) = std_seglens_for(plen, prefer) {
+            let nseg = sl.iter().filter(|&&x| x > 0).count();
+            let nh: usize = sl.iter().sum();
+            // pointers: consistent (ch inside segment ci)
+            let ci = rng.below(nseg as u64) as usize;
+            let base: usize = sl[..ci].iter().sum();
+            let ch = (base + rng.below(sl[ci] as u64) as usize).min(nh - 1).min(63);
+            let ci = if ch < base { 0 } else { ci };
+            let pb = std_path_bytes(sl, ci, ch, rng);
+            if let Some(p) = dp_path_from_bytes(1, &pb) {
+                out.push(Shape { name: format!("{cn}/std{}-{}-{}", sl[0], sl[1], sl[2]), src, dst, path: p, ptype: 1, path_bytes: pb });
+            }
+        }
+        if *cn == "v4v4" {
+            // opaque path of an unknown type: reaches every header size
+            let data = rng.bytes(plen);
+            out.push(Shape {
+                name: "v4v4/opaque".into(),
+                src,
+                dst,
+                path: DpPath::Unsupported { path_type: sciparse::dataplane_path::types::PathType::Other(77), data: data.clone() },
+                ptype: 77,
+                path_bytes: data,
+            });
+        }
+    }
+    out
+}
+
+/// a plausible offending packet of exactly `len` bytes (a SCION/UDP packet when long enough, else its prefix)
+fn offender_bytes(len: usize, rng: &mut Rng) -> Vec<u8> {
+    let pay_len = len.saturating_sub(36 + 24);
+    let mut udp = vec![0u8; 8];
+    udp[0..2].copy_from_slice(&(40000u16 + rng.below(1000) as u16).to_be_bytes());
+    udp[2..4].copy_from_slice(&443u16.to_be_bytes());
+    udp[4..6].copy_from_slice(&(((8 + pay_len.saturating_sub(8)) & 0xffff) as u16).to_be_bytes());
+    udp.extend_from_slice(&rng.bytes(pay_len.saturating_sub(8)));
+    let path = std_path_bytes([2, 0, 0], 0, 0, rng);
+    let mut b = wire::build_packet(17, 1, (0, 0), (0, 0), ia_bytes(2, 0xff00_0000_0220), ia_bytes(1, 0xff00_0000_0110), &[198, 51, 100, 7], &[192, 0, 2, 1], &path, &udp[..udp.len().min(65000)]);
+    if b.len() < len {
+        b.extend_from_slice(&rng.bytes(len - b.len()));
+    }
+    b.truncate(len);
+    // make every byte position distinguishable: xor a position pattern into the tail
+    b
+}
+
+fn mk_error(kind: &str, offender: Vec<u8>, rng: &mut Rng) -> ScmpErrorMessage {
+    match kind {
+        "DestUnreach" => ScmpDestinationUnreachable::new(ScmpDestinationUnreachableCode::from(rng.below(8) as u8), offender).into(),
+        "PacketTooBig" => ScmpPacketTooBig::new(1200 + rng.below(300) as u16, offender).into(),
+        "ParamProblem" => ScmpParameterProblem::new(ScmpParameterProblemCode::from(*rng.pick(&[0u8, 1, 16, 32, 48, 64, 200])), rng.below(2000) as u16, offender).into(),
+        "ExtIfDown" => ScmpExternalInterfaceDown::new(ia(1, 0xff00_0000_0111), rng.below(65536) as u16, offender).into(),
+        "IntConnDown" => ScmpInternalConnectivityDown::new(ia(1, 0xff00_0000_0111), rng.below(65536) as u16, rng.below(65536) as u16, offender).into(),
+        _ => panic!("unknown kind {kind}"),
+    }
+}
+
+/// facts about an encoded error packet, measured with the reference reader
+fn measure_error(bytes: &[u8], offender: &[u8], also_prefix_of: Option<&[u8]>) -> Value {
+    let mut o = json!({"total": bytes.len()});
+    match wire::describe_scmp(bytes) {
+        Some((h, d)) => {
+            let pl = h.payload(bytes).len();
+            let fixed = wire::scmp_fixed_len(d.t);
+            let prefix = offender.starts_with(&d.quote) || also_prefix_of.map(|x| x.starts_with(&d.quote)).unwrap_or(false);
+            o["hdr"] = json!(h.hdr_len);
+            o["t"] = json!(d.t);
+            o["code"] = json!(d.code);
+            o["scmp_len"] = json!(pl);
+            o["pay_len_field"] = json!(h.pay_len);
+            o["quote"] = json!(if d.complete { pl - fixed } else { 0 });
+            o["complete"] = json!(d.complete);
+            o["prefix"] = json!(d.complete && prefix);
+            o["prefix_of_original"] = json!(d.complete && offender.starts_with(&d.quote));
+            o["ck"] = json!(d.cksum_ok);
+            o["len_consistent"] = json!(h.hdr_len + h.pay_len == bytes.len());
+        }
+        None => {
+            o["unparsable"] = json!(true);
+        }
+    }
+    o
+}
+
+#[derive(Default)]
+struct RecReceiver {
+    got: Mutex<Vec<Vec<u8>>>,
+}
+impl Receiver for RecReceiver {
+    fn receive_packet(&self, packet: &ScionRawPacketView) {
+        self.got.lock().unwrap().push(packet.as_slice().to_vec());
+    }
+}
+
+// =================================================================================================
+// quote
+// =================================================================================================
+
+fn ctor_sciparse(shape: &Shape, msg: &ScmpErrorMessage, raw_first: bool) -> Result<Vec<u8>, String> {
+    let p = ScionScmpPacket::new(shape.src, shape.dst, shape.path.clone(), msg.clone().into());
+    let r = if raw_first { p.into_raw().try_encode_to_owned_view().map(|v| v.as_slice().to_vec()) } else { p.try_encode_to_owned_view().map(|v| v.as_slice().to_vec()) };
+    r.map_err(|e| format!("{e:?}"))
+}
+
+/// pocketscion maybe_create_scmp_reply via the public LocalNetworkSimulation::handle_local_routing_action
+fn ctor_pocket_reply(hdr: usize, msg: &ScmpErrorMessage, rng: &mut Rng) -> Vec<(String, Result<Vec<u8>, String>)> {
+    let mut out = vec![];
+    // reply header = 12 + 16 + len(router ip) + len(offender src host) + path
+    for (rn, rip) in [("r4", IpAddr::V4(Ipv4Addr::new(10, 9, 9, 9))), ("r6", IpAddr::V6(Ipv6Addr::new(0xfd00, 0, 0, 0, 0, 0, 0, 9)))] {
+        for (sn, shost) in [("s4", vec![192u8, 0, 2, 1]), ("s6", Ipv6Addr::new(0x2001, 0xdb8, 0, 0, 0, 0, 0, 1).octets().to_vec())] {
+            let rl = if rip.is_ipv4() { 4 } else { 16 };
+            let a = 16 + rl + shost.len();
+            if hdr < 12 + a {
+                continue;
+            }
+            let plen = hdr - 12 - a;
+            let (ptype, pb) = if plen == 0 {
+                (0u8, vec![])
+            } else if let Some(sl) = std_seglens_for(plen, 1 + rng.below(3) as usize) {
+                let nh: usize = sl.iter().sum();
+                // a packet in flight at some router: pointers anywhere consistent
+                let nseg = sl.iter().filter(|&&x| x > 0).count();
+                let ci = rng.below(nseg as u64) as usize;
+                let base: usize = sl[..ci].iter().sum();
+                let ch = base + rng.below(sl[ci] as u64) as usize;
+                if ch >= 64 || ch >= nh {
+                    (1u8, std_path_bytes(sl, 0, 0, rng))
+                } else {
+                    (1u8, std_path_bytes(sl, ci, ch, rng))
+                }
+            } else {
+                continue;
+            };
+            let sl_nib = if shost.len() == 4 { 0 } else { 3 };
+            let mut respond_to = wire::build_packet(17, ptype, (0, 0), (0, sl_nib), ia_bytes(2, 0xff00_0000_0220), ia_bytes(1, 0xff00_0000_0110), &[198, 51, 100, 7], &shost, &pb, &[0, 80, 0, 81, 0, 12, 0, 0, 1, 2, 3, 4]);
+            let local_as = ia(2, 0xff00_0000_0221);
+            let router = ScionRouter::new(vec![1, 2], SocketAddr::new(rip, 30042));
+            let receivers = NetworkReceiverRegistry::new();
+            let ext = ExternalAsRegistry::new();
+            let name = format!("pocket_reply/{rn}{sn}/{}", if ptype == 0 { "empty" } else { "std" });
+            let res = catch(|| {
+                let (view, _) = ScionRawPacketView::try_from_mut_slice(&mut respond_to).map_err(|e| format!("carrier rejected: {e:?}"))?;
+                let sim = LocalNetworkSimulation::new(local_as, 1, &receivers, &ext, &router);
+                match sim.handle_local_routing_action(LocalAsRoutingAction::SendSCMPErrorResponse(msg.clone()), view) {
+                    Ok(Some(raw)) => raw.try_encode_to_owned_view().map(|v| v.as_slice().to_vec()).map_err(|e| format!("encode: {e:?}")),
+                    Ok(None) => Err("no reply".into()),
+                    Err(e) => Err(format!("sim error: {e:#}")),
+                }
+            });
+            out.push((name, res.unwrap_or_else(|p| Err(format!("PANIC {p}")))));
+        }
+    }
+    out
+}
+
+/// SNAP tunnel gateway: the reply the gateway loop builds for a datagram failing the ingress policy
+fn ctor_snap(hdr: usize, off: usize, variant: u64, rng: &mut Rng) -> Vec<(String, Vec<u8>, Result<Vec<u8>, String>)> {
+    use snap_dataplane::tunnel_gateway::gateway::verif::ingress_reply;
+    let mut out = vec![];
+    let combos: [(&str, IpAddr, ScionHostAddr); 4] = [
+        ("p4l4", IpAddr::V4(Ipv4Addr::new(203, 0, 113, 5)), v4(10, 1, 1, 1)),
+        ("p4l6", IpAddr::V4(Ipv4Addr::new(203, 0, 113, 5)), v6(0x11)),
+        ("p6l4", IpAddr::V6(Ipv6Addr::new(0x2001, 0xdb8, 1, 0, 0, 0, 0, 5)), v4(10, 1, 1, 1)),
+        ("p6l6", IpAddr::V6(Ipv6Addr::new(0x2001, 0xdb8, 1, 0, 0, 0, 0, 5)), v6(0x11)),
+    ];
+    for (cn, peer, local) in combos {
+        let h = 12 + 16 + if peer.is_ipv4() { 4 } else { 16 } + host_len(&local);
+        if h != hdr {
+            continue;
+        }
+        // an offending datagram of exactly `off` bytes failing one of the three policies
+        let (why, datagram) = match variant % 3 {
+            0 => {
+                // malformed: version nibble != 0 (or too short)
+                let mut d = rng.bytes(off);
+                if !d.is_empty() {
+                    d[0] |= 0x10;
+                }
+                ("malformed", d)
+            }
+            1 => {
+                // wrong source address: valid SCION/UDP packet from another IP
+                let mut d = offender_bytes(off.max(36 + 24 + 8), rng);
+                d.truncate(off.max(36 + 24 + 8));
+                if off < d.len() {
+                    // cannot be a valid packet at this length: fall back to malformed
+                    let mut m = rng.bytes(off);
+                    if !m.is_empty() {
+                        m[0] |= 0x10;
+                    }
+                    ("malformed", m)
+                } else {
+                    // payload_len must match the datagram for the raw view; offender_bytes pads, so fix the field
+                    let hl = d[5] as usize * 4;
+                    let pl = (off - hl).min(65535) as u16;
+                    d[6..8].copy_from_slice(&pl.to_be_bytes());
+                    ("wrong_src", d)
+                }
+            }
+            _ => {
+                // unsupported path type (one-hop) from the right source address
+                let srcb: Vec<u8> = match peer {
+                    IpAddr::V4(a) => a.octets().to_vec(),
+                    IpAddr::V6(a) => a.octets().to_vec(),
+                };
+                let sl_nib = if srcb.len() == 4 { 0 } else { 3 };
+                let base = 12 + 16 + 4 + srcb.len() + 32;
+                if off < base {
+                    let mut m = rng.bytes(off);
+                    if !m.is_empty() {
+                        m[0] |= 0x10;
+                    }
+                    ("malformed", m)
+                } else {
+                    let pay = rng.bytes((off - base).min(65535));
+                    let mut d = wire::build_packet(17, 2, (0, 0), (0, sl_nib), ia_bytes(2, 0x220), ia_bytes(1, 0x110), &[198, 51, 100, 7], &srcb, &rng.bytes(32), &pay);
+                    if d.len() < off {
+                        d.extend_from_slice(&rng.bytes(off - d.len()));
+                    }
+                    ("onehop", d)
+                }
+            }
+        };
+        let res = catch(|| match ingress_reply(&datagram, peer, local) {
+            None => Err("policy passed".to_string()),
+            Some(Ok(b)) => Ok(b),
+            Some(Err(e)) => Err(format!("encode: {e:?}")),
+        });
+        out.push((format!("snap/{cn}/{why}"), datagram, res.unwrap_or_else(|p| Err(format!("PANIC {p}")))));
+    }
+    out
+}
+
+fn cmd_quote(inp: &str, outp: &str) {
+    let cells = read_ndjson(inp);
+    let mut w = NdjsonWriter::create(outp);
+    let mut rng = Rng::new(seed_from_env() ^ 0xC14);
+    for (i, c) in cells.iter().enumerate() {
+        let kind = c["kind"].as_str().unwrap();
+        let hdr = c["hdr"].as_u64().unwrap() as usize;
+        let off = c["off"].as_u64().unwrap() as usize;
+        let offender = offender_bytes(off, &mut rng);
+        let msg = mk_error(kind, offender.clone(), &mut rng);
+        let mut results = vec![];
+        for shape in shapes_for_hdr(hdr, &mut rng) {
+            for raw_first in [false, true] {
+                let name = format!("{}/{}", if raw_first { "sciparse_raw" } else { "sciparse" }, shape.name);
+                let r = catch(|| ctor_sciparse(&shape, &msg, raw_first)).unwrap_or_else(|p| Err(format!("PANIC {p}")));
+                let mut o = match &r {
+                    Ok(b) => measure_error(b, &offender, None),
+                    Err(e) => json!({"err": e}),
+                };
+                o["ctor"] = json!(name);
+                results.push(o);
+            }
+        }
+        for (name, r) in ctor_pocket_reply(hdr, &msg, &mut rng) {
+            let mut o = match &r {
+                Ok(b) => measure_error(b, &offender, None),
+                Err(e) => json!({"err": e}),
+            };
+            o["ctor"] = json!(name);
+            results.push(o);
+        }
+        if kind == "ParamProblem" {
+            for (name, datagram, r) in ctor_snap(hdr, off, i as u64, &mut rng) {
+                let mut o = match &r {
+                    Ok(b) => measure_error(b, &datagram, None),
+                    Err(e) => json!({"err": e}),
+                };
+                o["ctor"] = json!(name);
+                results.push(o);
+            }
+        }
+        w.write(&json!({"kind": kind, "hdr": hdr, "off": off, "results": results}));
+    }
+    w.finish();
+}
+
+// =================================================================================================
+// reply: message descriptors -> real handlers
+// =================================================================================================
+
+/// SCMP message template of type t (long enough for every `have`), with the given echo fields / quote
+fn scmp_template(t: u8, code: u8, id: u16, seq: u16, data: &[u8], quote: &[u8], rng: &mut Rng) -> Vec<u8> {
+    let mut m = vec![t, code, 0, 0];
+    match t {
+        128 | 129 => {
+            m.extend_from_slice(&id.to_be_bytes());
+            m.extend_from_slice(&seq.to_be_bytes());
+            m.extend_from_slice(data);
+        }
+        130 | 131 => {
+            m.extend_from_slice(&id.to_be_bytes());
+            m.extend_from_slice(&seq.to_be_bytes());
+            m.extend_from_slice(&ia_bytes(1, 0xff00_0000_0111));
+            m.extend_from_slice(&(rng.below(65536)).to_be_bytes());
+        }
+        1 => {
+            m.extend_from_slice(&[0, 0, 0, 0]);
+            m.extend_from_slice(quote);
+        }
+        2 | 4 => {
+            m.extend_from_slice(&[0, 0]);
+            m.extend_from_slice(&id.to_be_bytes()); // mtu / pointer carries the case id
+            m.extend_from_slice(quote);
+        }
+        5 => {
+            m.extend_from_slice(&ia_bytes(1, 0xff00_0000_0111));
+            m.extend_from_slice(&(id as u64).to_be_bytes());
+            m.extend_from_slice(quote);
+        }
+        6 => {
+            m.extend_from_slice(&ia_bytes(1, 0xff00_0000_0111));
+            m.extend_from_slice(&(id as u64).to_be_bytes());
+            m.extend_from_slice(&(seq as u64).to_be_bytes());
+            m.extend_from_slice(quote);
+        }
+        _ => {
+            m.extend_from_slice(&id.to_be_bytes());
+            m.extend_from_slice(&seq.to_be_bytes());
+            m.extend_from_slice(data);
+        }
+    }
+    m
+}
+
+struct Req {
+    bytes: Vec<u8>,
+    id: u16,
+    seq: u16,
+}
+
+#[derive(Clone, Copy, PartialEq, Debug)]
+enum PathKind {
+    Empty,
+    Std(usize),
+    OneHop,
+    Opaque,
+}
+
+/// Build the packet of a reply cell. None = the cell has no concrete instance (checksum field absent but ck demanded).
+#[allow(clippy::too_many_arguments)]
+fn build_scmp_packet(t: u8, code: u8, have: usize, trunc: bool, ck: bool, pk: PathKind, addr_ok: bool, quote_err: bool, case_id: u16, rng: &mut Rng) -> Option<Req> {
+    if have < 4 && ck {
+        return None;
+    }
+    let id = case_id;
+    let seq = rng.below(65536) as u16;
+    let data = rng.bytes(64);
+    // quoted packet for error types: a SCION/UDP packet, or (quote_err) a SCION/SCMP error packet
+    let quote = if quote_err {
+        let inner = scmp_template(1, 0, 0, 0, &[], &rng.bytes(20), rng);
+        let mut q = wire::build_packet(202, 0, (0, 0), (0, 0), ia_bytes(2, 0x220), ia_bytes(1, 0x110), &[198, 51, 100, 7], &[192, 0, 2, 1], &[], &inner);
+        wire::fix_l4_checksum(&mut q);
+        q
+    } else {
+        offender_bytes(90, rng)
+    };
+    let tmpl = scmp_template(t, code, id, seq, &data, &quote, rng);
+    let mut msg = tmpl.clone();
+    if msg.len() < have {
+        msg.extend_from_slice(&rng.bytes(have - msg.len()));
+    }
+    msg.truncate(have);
+    let (ptype, pb): (u8, Vec<u8>) = match pk {
+        PathKind::Empty => (0, vec![]),
+        PathKind::Std(n) => {
+            let sl = match n {
+                1 => [2 + rng.below(3) as usize, 0, 0],
+                2 => [1 + rng.below(3) as usize, 2 + rng.below(2) as usize, 0],
+                _ => [2, 1 + rng.below(3) as usize, 2 + rng.below(3) as usize],
+            };
+            let nh: usize = sl.iter().sum();
+            // as received at the destination: last hop of the last segment
+            (1, std_path_bytes(sl, n - 1, nh - 1, rng))
+        }
+        PathKind::OneHop => {
+            let mut b = rng.bytes(32);
+            b[0] &= 1;
+            b[1] = 0;
+            b[8] = 0;
+            b[20] = 0;
+            (2, b)
+        }
+        PathKind::Opaque => (3, rng.bytes(16)),
+    };
+    // addresses: requester = src
+    let (st_sl, src_host): ((u8, u8), Vec<u8>) = match rng.below(3) {
+        0 => ((0, 0), vec![192, 0, 2, 1]),
+        1 => ((0, 3), Ipv6Addr::new(0x2001, 0xdb8, 0, 0, 0, 0, 0, 1).octets().to_vec()),
+        _ => ((0, 0), vec![10, 0, 0, 9]),
+    };
+    let (mut dt_dl, dst_host): ((u8, u8), Vec<u8>) = match rng.below(2) {
+        0 => ((0, 0), vec![198, 51, 100, 7]),
+        _ => ((0, 3), Ipv6Addr::new(0x2001, 0xdb8, 0, 0, 0, 0, 0, 7).octets().to_vec()),
+    };
+    let mut st_sl = st_sl;
+    if !addr_ok {
+        // unknown host address type (T=2) on one side
+        if rng.chance(1, 2) {
+            st_sl = (2, st_sl.1);
+        } else {
+            dt_dl = (2, dt_dl.1);
+        }
+    }
+    let mut b = wire::build_packet(202, ptype, dt_dl, st_sl, ia_bytes(2, 0xff00_0000_0220), ia_bytes(1, 0xff00_0000_0110), &dst_host, &src_host, &pb, &msg);
+    if have >= 4 {
+        wire::fix_l4_checksum(&mut b);
+        if !ck && !trunc {
+            let hl = b[5] as usize * 4;
+            b[hl + 2] ^= 0x55;
+            b[hl + 3] ^= 0xaa;
+        }
+    }
+    if trunc {
+        // the payload length field promises more than the datagram holds
+        let claimed = (have + 8 + rng.below(64) as usize) as u16;
+        b[6..8].copy_from_slice(&claimed.to_be_bytes());
+    }
+    Some(Req { bytes: b, id, seq })
+}
+
+/// reference reversal of the path of a request (ptype, bytes) -> (ptype, bytes) of the reply
+fn reference_reverse(ptype: u8, pb: &[u8]) -> Option<(u8, Vec<u8>)> {
+    match ptype {
+        0 => Some((0, vec![])),
+        1 => wire::reverse_standard(pb).map(|x| (1, x)),
+        2 => {
+            if pb.len() != 32 {
+                return None;
+            }
+            // one-hop -> standard path with one segment of two hops, reversed, starting at its first hop
+            let meta: u32 = 2 << 12;
+            let mut out = meta.to_be_bytes().to_vec();
+            let mut inf = pb[0..8].to_vec();
+            inf[0] ^= 1;
+            out.extend_from_slice(&inf);
+            out.extend_from_slice(&pb[20..32]);
+            out.extend_from_slice(&pb[8..20]);
+            Some((1, out))
+        }
+        _ => None,
+    }
+}
+
+/// Is `reply` a faithful echo reply to `req`?  Returns (faithful, reasons, reply checksum ok)
+fn echo_faithful(req: &[u8], reply: &[u8]) -> (bool, Vec<String>, bool) {
+    let mut why = vec![];
+    let Some((hq, dq)) = wire::describe_scmp(req) else { return (false, vec!["request unparsable".into()], false) };
+    let Some((hr, dr)) = wire::describe_scmp(reply) else { return (false, vec!["reply unparsable".into()], false) };
+    if dr.t != 129 {
+        why.push(format!("type {}", dr.t));
+    }
+    if dr.code != 0 {
+        why.push("code".into());
+    }
+    if !dr.complete {
+        why.push("incomplete".into());
+    }
+    if dr.id != dq.id {
+        why.push("identifier".into());
+    }
+    if dr.seq != dq.seq {
+        why.push("sequence".into());
+    }
+    if dr.data != dq.data {
+        why.push("data".into());
+    }
+    if !(hr.dst_ia == hq.src_ia && hr.dst_host == hq.src_host && (hr.dt, hr.dl) == (hq.st, hq.sl)) {
+        why.push("not addressed to the requester".into());
+    }
+    if !(hr.src_ia == hq.dst_ia && hr.src_host == hq.dst_host && (hr.st, hr.sl) == (hq.dt, hq.dl)) {
+        why.push("source is not the request's destination".into());
+    }
+    match reference_reverse(hq.ptype, &hq.path) {
+        Some((pt, pb)) => {
+            if hr.ptype != pt || hr.path != pb {
+                why.push(if hq.ptype == 2 { "onehop-path not reversed as reference".into() } else { "path not reversed".to_string() });
+            }
+        }
+        None => why.push("request path not reversible".into()),
+    }
+    if hr.hdr_len + hr.pay_len != reply.len() {
+        why.push("length fields".into());
+    }
+    (why.is_empty(), why, dr.cksum_ok)
+}
+
+#[derive(Default)]
+struct ErrRecorder {
+    got: Mutex<Vec<(u8, Vec<u8>, Vec<u8>)>>, // (type, quote, path bytes)
+}
+fn err_parts(e: &ScmpErrorMessage) -> (u8, Vec<u8>) {
+    match e {
+        ScmpErrorMessage::DestinationUnreachable(x) => (1, x.get_offending_packet().to_vec()),
+        ScmpErrorMessage::PacketTooBig(x) => (2, x.get_offending_packet().to_vec()),
+        ScmpErrorMessage::ParameterProblem(x) => (4, x.get_offending_packet().to_vec()),
+        ScmpErrorMessage::ExternalInterfaceDown(x) => (5, x.get_offending_packet().to_vec()),
+        ScmpErrorMessage::InternalConnectivityDown(x) => (6, x.get_offending_packet().to_vec()),
+    }
+}
+impl ScmpErrorReceiver for ErrRecorder {
+    fn report_scmp_error<'a>(&self, scmp_error: ScmpErrorMessage, path: ScionDpPathViewRef<'a>) {
+        let (t, q) = err_parts(&scmp_error);
+        self.got.lock().unwrap().push((t, q, path.as_slice().to_vec()));
+    }
+}
+
+/// descriptor of a received packet as the reference reader sees it (fields of Scmp.tla)
+fn descriptor(bytes: &[u8]) -> Option<Value> {
+    let h = wire::parse_hdr(bytes)?;
+    if h.next != wire::PROTO_SCMP {
+        return None;
+    }
+    let m = h.payload(bytes);
+    let t = if m.is_empty() { 0 } else { m[0] };
+    let have = m.len();
+    let trunc = have < h.pay_len;
+    let fixed = wire::scmp_fixed_len(t);
+    let pfixed = fixed.max(8);
+    let complete = !trunc && have >= fixed && have >= 4;
+    let ck = !trunc && have >= 4 && wire::checksum_ok(&h, wire::PROTO_SCMP, m);
+    let rev = reference_reverse(h.ptype, &h.path).is_some();
+    let known = |t: u8, l: u8| matches!((t, l), (0, 0) | (0, 3) | (1, 0));
+    let addr = known(h.dt, h.dl) && known(h.st, h.sl);
+    Some(json!({"t": t, "complete": complete, "ck": ck, "parsed": have >= pfixed, "rev": rev, "addr": addr, "have": have, "trunc": trunc}))
+}
+
+struct HandleObs {
+    raw_ok: bool,
+    echo_replies: u64,
+    echo_faithful: bool,
+    echo_why: Vec<String>,
+    echo_reply_ck: bool,
+    echo_panic: Option<String>,
+    err_replies: u64,
+    notified: Vec<u64>,
+    notif_content_ok: bool,
+    err_panic: Option<String>,
+    reply_hex: Option<String>,
+}
+
+/// feed one packet to DefaultEchoHandler::handle and to the stack's ScmpErrorHandler::handle (2 recording receivers)
+fn observe_handlers(bytes: &[u8]) -> HandleObs {
+    let mut o = HandleObs { raw_ok: false, echo_replies: 0, echo_faithful: true, echo_why: vec![], echo_reply_ck: true, echo_panic: None, err_replies: 0, notified: vec![0, 0], notif_content_ok: true, err_panic: None, reply_hex: None };
+    let Ok((view, _)) = ScionRawPacketView::try_from_slice(bytes) else { return o };
+    o.raw_ok = true;
+    // echo handler
+    match catch(|| DefaultEchoHandler::new().handle(view).map(|r| r.try_encode_to_owned_view().map(|v| v.as_slice().to_vec()))) {
+        Err(p) => o.echo_panic = Some(p),
+        Ok(None) => {}
+        Ok(Some(Err(e))) => {
+            // a reply was produced but cannot be encoded: counts as one (unsendable) reply
+            o.echo_replies = 1;
+            o.echo_faithful = false;
+            o.echo_why.push(format!("reply does not encode: {e:?}"));
+        }
+        Ok(Some(Ok(rb))) => {
+            o.echo_replies = 1;
+            let (f, why, ck) = echo_faithful(bytes, &rb);
+            o.echo_faithful = f;
+            o.echo_why = why;
+            o.echo_reply_ck = ck;
+            o.reply_hex = Some(wire::hex(&rb));
+        }
+    }
+    // error handler with two receivers
+    let r1 = Arc::new(ErrRecorder::default());
+    let r2 = Arc::new(ErrRecorder::default());
+    let rs: Vec<Arc<dyn ScmpErrorReceiver>> = vec![r1.clone(), r2.clone()];
+    match catch(|| {
+        let h = sockhook::scmp_error_handler(&rs);
+        h.handle(view).is_some()
+    }) {
+        Err(p) => o.err_panic = Some(p),
+        Ok(replied) => o.err_replies = replied as u64,
+    }
+    let want = wire::describe_scmp(bytes);
+    for (i, r) in [r1, r2].iter().enumerate() {
+        let g = r.got.lock().unwrap();
+        o.notified[i] = g.len() as u64;
+        for (t, q, pb) in g.iter() {
+            if let Some((h, d)) = &want {
+                if *t != d.t || *q != d.quote || *pb != h.path {
+                    o.notif_content_ok = false;
+                }
+            }
+        }
+    }
+    o
+}
+
+fn obs_json(o: &HandleObs) -> Value {
+    json!({"raw_ok": o.raw_ok, "echo_replies": o.echo_replies, "echo_faithful": o.echo_faithful, "echo_why": o.echo_why, "echo_reply_ck": o.echo_reply_ck,
+           "echo_panic": o.echo_panic, "err_replies": o.err_replies, "notified": o.notified, "notif_content_ok": o.notif_content_ok, "err_panic": o.err_panic})
+}
+
+fn cmd_reply(inp: &str, outp: &str) {
+    let cells = read_ndjson(inp);
+    let mut w = NdjsonWriter::create(outp);
+    let mut rng = Rng::new(seed_from_env() ^ 0xC14B);
+    let kinds_rev = [PathKind::Empty, PathKind::Std(1), PathKind::Std(2), PathKind::Std(3), PathKind::OneHop];
+    for (i, c) in cells.iter().enumerate() {
+        let t = c["t"].as_u64().unwrap() as u8;
+        let have = c["have"].as_u64().unwrap() as usize;
+        let trunc = c["trunc"].as_bool().unwrap();
+        let ck = c["ck"].as_bool().unwrap();
+        let rev = c["rev"].as_bool().unwrap();
+        let addr = c["addr"].as_bool().unwrap();
+        let code = *rng.pick(&[0u8, 0, 1, 255]);
+        let pk = if rev { kinds_rev[i % kinds_rev.len()] } else { PathKind::Opaque };
+        let quote_err = wire::is_known_error(t) && i % 3 == 0;
+        let Some(req) = build_scmp_packet(t, code, have, trunc, ck, pk, addr, quote_err, (i % 65536) as u16, &mut rng) else {
+            w.write(&json!({"i": i, "infeasible": true}));
+            continue;
+        };
+        // the reference reader must agree with the cell (self-check of the builder)
+        let d = descriptor(&req.bytes);
+        let o = observe_handlers(&req.bytes);
+        let mut j = obs_json(&o);
+        j["i"] = json!(i);
+        j["d"] = d.unwrap_or(Value::Null);
+        j["path"] = json!(format!("{pk:?}"));
+        j["quote_err"] = json!(quote_err);
+        j["pkt"] = json!(wire::hex(&req.bytes));
+        w.write(&j);
+    }
+    w.finish();
+}
 
 fn main() {
-    let src = ScionAddr::new(IsdAsn::new(Isd(1), Asn(10)), std::net::Ipv4Addr::new(192, 0, 2, 1).into());
-    let dst = ScionAddr::new(IsdAsn::new(Isd(1), Asn(20)), std::net::Ipv4Addr::new(198, 51, 100, 1).into());
-    let p = ScionScmpPacket::new(src, dst, DpPath::Empty, ScmpMessage::EchoRequest(ScmpEchoRequest::new(7, 9, b"payload".to_vec())));
-    let v = p.try_encode_to_owned_view().unwrap();
-    let b = v.as_slice();
-    println!("{}", wire::hex(b));
-    let (h, d) = wire::describe_scmp(b).unwrap();
-    println!("{:?} {:?}", h, d);
+    quiet_panics();
+    let a: Vec<String> = std::env::args().collect();
+    if a.len() < 4 {
+        eprintln!("usage: c14_scmp quote|reply|router|socket|record <in> <out>");
+        std::process::exit(2);
+    }
+    match a[1].as_str() {
+        "quote" => cmd_quote(&a[2], &a[3]),
+        "reply" => cmd_reply(&a[2], &a[3]),
+        _ => {
+            eprintln!("unknown subcommand");
+            std::process::exit(2)
+        }
+    }
 }
